@@ -297,7 +297,11 @@ impl Cfg {
 
 /// class of a builder / generate error, as the model names them
 pub fn err_class(e: &str) -> &'static str {
-    if e.contains("V6 primary key may not be combined") {
+    if e.contains("Keys of version") && e.contains("can not be generated") && !e.contains("Subkeys of version") {
+        "key_version"
+    } else if e.contains("Subkeys of version") {
+        "subkey_version"
+    } else if e.contains("V6 primary key may not be combined") {
         "v6_primary_nonv6_sub"
     } else if e.contains("primary key may not be combined with V6 subkey") {
         "nonv6_primary_v6_sub"
@@ -827,7 +831,21 @@ pub fn run(ctx: &mut Ctx) {
         jobs.push((random_cfg(&mut rng, Some(Kt(RSA, 2048)), false), rng.gen()));
     }
     for i in 0..n_dsa {
-        jobs.push((random_cfg(&mut rng, Some(Kt(DSA, if i % 2 == 0 { 2048 } else { 1024 })), false), rng.gen()));
+        // DSA-2048 parameter generation takes seconds (and varies a lot): thorough tier only
+        let bits = if ctx.thorough() && i % 2 == 0 { 2048 } else { 1024 };
+        jobs.push((random_cfg(&mut rng, Some(Kt(DSA, bits)), false), rng.gen()));
+    }
+    if !ctx.thorough() {
+        // the default S2K of a locked v6 key is Argon2 (64 MiB, t = 3) per unlock: in the quick tier only
+        // the two corpus shapes use it, the random shapes use the cheap S2K
+        let n_corpus = corpus().len();
+        for (cfg, _) in jobs.iter_mut().skip(n_corpus) {
+            cfg.default_s2k = false;
+        }
+        // sorted so that the slow jobs (RSA, DSA, Argon2) start first and do not form the tail
+        jobs.sort_by_key(|(c, _)| !(c.default_s2k || matches!(c.kt.0, RSA | DSA) || c.subs.iter().any(|s| s.kt.0 == RSA)));
+    } else {
+        jobs.sort_by_key(|(c, _)| !(c.default_s2k || matches!(c.kt.0, RSA | DSA) || c.subs.iter().any(|s| s.kt.0 == RSA)));
     }
     let threads = std::thread::available_parallelism().map(|n| n.get()).unwrap_or(4).min(16);
     let t_sweep = std::time::Instant::now();
@@ -923,7 +941,7 @@ fn real_validate(cfg: &Cfg) -> String {
 /// builder validation: (version set? which) x every key type x capability requests x user ids x
 /// one or two subkeys of every kind
 pub fn validate_sweep(ctx: &mut Ctx) {
-    let vers: [Option<u8>; 6] = [None, Some(2), Some(3), Some(4), Some(5), Some(6)];
+    let vers: [Option<u8>; 7] = [None, Some(2), Some(3), Some(4), Some(5), Some(6), Some(7)];
     let kts = all_kts();
     let mut rng = ChaCha8Rng::seed_from_u64(ctx.seed ^ 0x7A11);
     let mut n = 0u64;
@@ -944,12 +962,12 @@ pub fn validate_sweep(ctx: &mut Ctx) {
         }
     }
     // one subkey of every kind / version / capability request under a few primaries
-    let every = ctx.pick(7, 1);
+    let every = ctx.pick(13, 1);
     let mut i = 0u64;
     for ver in vers {
         for pkt in [Kt(ED25519, 0), Kt(RSA, 2048), Kt(ECDSA, 2)] {
             for &skt in &kts {
-                for sver in [3u8, 4, 6] {
+                for sver in [3u8, 4, 5, 6, 7] {
                     for caps in 0..16u8 {
                         i += 1;
                         if i % every != 0 {
@@ -969,7 +987,7 @@ pub fn validate_sweep(ctx: &mut Ctx) {
         let ver = vers[rng.gen_range(0..vers.len())];
         let pkt = kts[rng.gen_range(0..kts.len())];
         let ns = rng.gen_range(2..=3);
-        let subs = (0..ns).map(|_| SubCfg { kt: kts[rng.gen_range(0..kts.len())], ver: [3u8, 4, 4, 6, 6][rng.gen_range(0..5)], sign: rng.gen_bool(0.3), enc: [0u8, 0, 1, 2, 3][rng.gen_range(0..5)], auth: rng.gen_bool(0.2), locked: false }).collect();
+        let subs = (0..ns).map(|_| SubCfg { kt: kts[rng.gen_range(0..kts.len())], ver: [3u8, 4, 4, 4, 6, 6, 6, 5, 7, 2][rng.gen_range(0..10)], sign: rng.gen_bool(0.3), enc: [0u8, 0, 1, 2, 3][rng.gen_range(0..5)], auth: rng.gen_bool(0.2), locked: false }).collect();
         let cfg = shape_cfg(ver, pkt, rng.gen_bool(0.7), [0u8, 0, 3][rng.gen_range(0..3)], rng.gen_bool(0.2), rng.gen_bool(0.7), rng.gen_range(0..3), subs);
         emit(ctx, &cfg);
         n += 1;
